@@ -228,6 +228,9 @@ func drawLeaf(t *rapid.T, label string, S float64) (sdf.SDF2, string) {
 		return sdf.Box2D(v2.Vec{X: w, Y: h}, rd), fmt.Sprintf("box(%s,%s,r%s)", ev.F(w), ev.F(h), ev.F(rd))
 	case 2:
 		l, rd := size(".l"), size(".rd")/4
+		if rapid.IntRange(0, 2).Draw(t, label+".stroke") == 0 {
+			rd = 0 // a stroke: a line segment without thickness (its bounding box has no area)
+		}
 		return sdf.Line2D(l, rd), fmt.Sprintf("line(%s,r%s)", ev.F(l), ev.F(rd))
 	case 3:
 		// capsule-like: a line with generous rounding
